@@ -13,9 +13,12 @@ import (
 	"math/bits"
 	"os"
 	"path/filepath"
+	"runtime"
+	"runtime/debug"
 	"sort"
 	"strings"
 	"sync"
+	"time"
 
 	"github.com/paulsonkoly/chess-3/tools/tuner/common"
 	"github.com/paulsonkoly/chess-3/tools/tuner/epd"
@@ -501,8 +504,9 @@ func goOpenTrace(ch *epd.Chunker, epoch, start, end, bufLen int, full bool) (out
 		return "err", nil, 0
 	}
 	defer c.Close()
+	defer c.VerifUnshrinkBuf()
 	if bufLen != epd.VerifBackingBytes {
-		c.VerifSetBuf(bufLen)
+		c.VerifShrinkBuf(bufLen) // in place: the allocation Open made (and anything it shares) is kept
 	}
 	h := fnvInit
 	var parts []string
@@ -634,7 +638,25 @@ func readerSuite(ctx *common.Ctx, res *common.Result, m *common.Model, dir strin
 
 	// random files
 	nFiles := ctx.Pick(60, 600)
+	var ring []*fileCase // the last few readable files stay on disk for the multi-reader sessions
+	// Open allocates 32 MiB per chunk.  Of a fresh allocation only the pages the file fills are ever touched,
+	// but an allocation the collector recycles is cleared in full first (≈ 5 ms, > 90 % of the time of this
+	// loop).  So no collection during the first 150 small files (≈ 4000 opens: address space, not memory) and,
+	// in the quick tier, up to the files that fill the whole buffer.
+	gcOff := min(nFiles, 150)
+	gcWas := debug.SetGCPercent(-1)
+	gcOn := func() {
+		if gcWas != -1 {
+			debug.SetGCPercent(gcWas)
+			gcWas = -1
+			runtime.GC()
+		}
+	}
+	defer gcOn()
 	for id := 0; id < nFiles; id++ {
+		if id == gcOff {
+			gcOn()
+		}
 		style := 0
 		switch r := ctx.Rng.IntN(10); {
 		case r < 3:
@@ -647,8 +669,26 @@ func readerSuite(ctx *common.Ctx, res *common.Result, m *common.Model, dir strin
 			nLines = ctx.Rng.IntN(60)
 		}
 		fc := genFile(ctx, dir, id, nLines, style)
-		checkFile(ctx, res, m, fc, 6+ctx.Rng.IntN(10), true)
-		os.Remove(fc.path)
+		if checkFile(ctx, res, m, fc, 6+ctx.Rng.IntN(10), "small") {
+			ring = append(ring, fc)
+		} else {
+			os.Remove(fc.path)
+		}
+		if len(ring) == 4 {
+			byLinesSession(ctx, res, ring[:2+ctx.Rng.IntN(3)])
+			byLinesSession(ctx, res, []*fileCase{ring[0], ring[3], ring[0]}) // two readers on the same file
+			chunkersConc(res, ring)
+			for _, f := range ring {
+				os.Remove(f.path)
+			}
+			ring = ring[:0]
+		}
+	}
+	for _, f := range ring {
+		os.Remove(f.path)
+	}
+	if ctx.Thorough() {
+		gcOn()
 	}
 	// files with several batches (real constants): > 100000 short lines
 	for k := 0; k < ctx.Pick(1, 4); k++ {
@@ -657,13 +697,31 @@ func readerSuite(ctx *common.Ctx, res *common.Result, m *common.Model, dir strin
 			nLines = 200000 // exact multiple of the batch size
 		}
 		fc := genBig(ctx, dir, 1000+k, nLines, 1, 9)
-		checkFile(ctx, res, m, fc, 3, true)
+		checkFile(ctx, res, m, fc, 3, "multibatch")
+		os.Remove(fc.path)
+	}
+	// mid-size files, one batch of several chunks, lines of tuner-data length: with a shortened buffer the
+	// windows of the open chunks lie in different regions of the file
+	for k := 0; k < ctx.Pick(1, 3); k++ {
+		fc := genLines(ctx, dir, 1500+k, 50001+ctx.Rng.IntN(30000), 30, 150) // 8–13 chunks, 4–7 MB
+		checkFile(ctx, res, m, fc, 2, "mid")
+		os.Remove(fc.path)
+	}
+	// just over the real 32 MiB buffer (36–42 MB): every chunk refills the REAL buffer twice.  One batch of 9–11
+	// chunks, n ≤ 2^16: for a bit width of 17 the shuffle keeps the top bit of x in place (the round function is
+	// masked with the narrower half), so a chunk would stay within the first 2^16 lines or within the rest and
+	// see the file through a single 32 MiB window.
+	gcOn()
+	{
+		nLines := 56000 + ctx.Rng.IntN(9537)
+		fc := genLines(ctx, dir, 1800, nLines, 450, 850)
+		checkFile(ctx, res, m, fc, 2, "real32")
 		os.Remove(fc.path)
 	}
 	if ctx.Thorough() {
 		// ~70 MB: lines straddle the 32 MiB refills of the real buffer
 		fc := genBig(ctx, dir, 2000, 1_000_000, 40, 100)
-		checkFile(ctx, res, m, fc, 2, false)
+		checkFile(ctx, res, m, fc, 2, "huge")
 		os.Remove(fc.path)
 	}
 }
@@ -709,7 +767,11 @@ func partitionKind(rs []tuning.Range, lo, hi int) string {
 	return "broken-correspondence"
 }
 
-func checkFile(ctx *common.Ctx, res *common.Result, m *common.Model, fc *fileCase, nOpens int, small bool) {
+// checkFile returns whether NewChunker accepted the file.
+func checkFile(ctx *common.Ctx, res *common.Result, m *common.Model, fc *fileCase, nOpens int, kind string) bool {
+	tf := time.Now()
+	defer func() { res.Count("reader-ms:"+kind, int(time.Since(tf).Milliseconds())) }()
+	small := kind != "huge" && kind != "real32" // the > 32 MiB files: real buffer only, single opens of ≤ 20000 lines
 	spec := specLines(fc.data)
 	fileOp := "file " + fc.path
 	desc := fmt.Sprintf("file bytes=%d lines=%d blank=%d tail=%d maxlen=%d", len(fc.data), len(spec), fc.blank, fc.tail, fc.maxLen)
@@ -726,7 +788,7 @@ func checkFile(ctx *common.Ctx, res *common.Result, m *common.Model, fc *fileCas
 		if got != "err" {
 			fail(common.Mismatch{Property: prop, Kind: "broken-correspondence", Ops: []string{desc}, Impl: "err", Model: trunc(got, 200), Note: dataNote})
 		}
-		return
+		return false
 	}
 	man := ch.VerifManifest()
 	h := fnvInit
@@ -758,7 +820,7 @@ func checkFile(ctx *common.Ctx, res *common.Result, m *common.Model, fc *fileCas
 		fail(common.Mismatch{Property: prop, Kind: kind, Ops: []string{desc, "manifest"}, Impl: strings.Join(ms, " "),
 			Model: trunc(m.Ask("manifest"), 400), Spec: fmt.Sprintf("%d non-blank lines", len(spec)), Note: dataNote})
 		if got != impl {
-			return
+			return true
 		}
 	}
 	n := len(man)
@@ -881,6 +943,25 @@ func checkFile(ctx *common.Ctx, res *common.Result, m *common.Model, fc *fileCas
 		}
 		res.Sample(map[string]string{"file": desc, "op": op, "impl": impl, "model": got, "refills": fmt.Sprint(refills)}, 12)
 	}
+	// usage patterns of the API: several chunks of the one Chunker alive at once (usage.go)
+	t0 := time.Now()
+	defer func() { res.Count("reader-ms:"+kind+":usage-sessions", int(time.Since(t0).Milliseconds())) }()
+	uf := &usageFile{fc: fc, ch: ch, man: man, specCount: specCount, desc: desc, kind: kind, model: map[string]string{}, m: m}
+	real := epd.VerifBackingBytes
+	switch kind {
+	case "small":
+		usageSmall(ctx, res, uf)
+	case "multibatch": // ~1 MB: one refill per chunk with the real buffer, 16–250 with 4–64 KiB
+		usageBig(ctx, res, uf, []int{real, 4096 << ctx.Rng.IntN(5)}, usageNames, 0, 1<<30, true)
+	case "mid":
+		usageBig(ctx, res, uf, []int{real, 65536 << ctx.Rng.IntN(5)}, usageNames, 0, 1<<30, true)
+	case "real32":
+		usageBig(ctx, res, uf, []int{real}, usageNames, 0, 1<<30, true)
+	case "huge": // 10 batches: two of them per pattern, three refills of the real buffer per chunk
+		b0 := ctx.Rng.IntN(8)
+		usageBig(ctx, res, uf, []int{real}, []string{"ilv-rr", "ilv-burst", "conc", "reopen-ilv"}, b0, b0+2, false)
+	}
+	return true
 }
 
 func main() {
@@ -894,7 +975,7 @@ func main() {
 	res.Rule = "shuffle: (n, epoch) whose image needs at least one rejection step of the cycle walk (n not a power of two); " +
 		"feistel images of odd bit width (unbalanced halves); " +
 		"reader: Open/epoch on a file with at least one blank line in which Read refilled its buffer window at least twice; " +
-		"chunks: batches split into more than one chunk"
+		"chunks: batches split into more than one chunk; " + usageRule()
 	dir, err := os.MkdirTemp("", "c20-")
 	if err != nil {
 		panic(err)
